@@ -9,7 +9,7 @@ CONSTANTS
   Modes = {"R"}
   Vers = {"new"}
   Ports <- PortsNone
-  Shapes = {"s00", "s10", "s20"}
+  Shapes = {"s00", "s10", "s20", "p11"}
   TsSet = {1, 2}
   PartKinds = {}
   Markers = {}
